@@ -832,7 +832,7 @@ pub fn c07(v: &View) -> Vec<Violation> {
     let Some(h) = v.phase_seq[0] else { return out };
     for a in 0..v.actors.len() {
         let av = &v.actors[a];
-        if !av.spawned || av.start_end.is_none() {
+        if !av.spawned || av.start_end.is_none() || av.spawn_seq > h {
             continue;
         }
         let healthy = av.started_ok() && !v.kill_began_before(a, h) && av.panic_seq.map(|p| p > h).unwrap_or(true) && av.run_err.map(|r| r.0 > h).unwrap_or(true);
